@@ -172,6 +172,10 @@ def main(c):
                 params = {"MethodOrder": rng.choice([2, 2, 3, 4]), "AccelerationPeriod": rng.choice([1, 2, 3])}
                 dim = params["MethodOrder"] + rng.randint(1, 2)    # Gram matrices non singular (rank-deficient path not modelled)
                 niter = rng.randint(4, 9)
+                if algo == "UAnderson":
+                    # the previous (accelerated) output is fed back into the D fields: in exact arithmetic the size of the rationals is
+                    # multiplied by ~8 at every accelerated iteration; at most 4 of them
+                    niter = min(niter, 2 + 3 * params["AccelerationPeriod"])
             else:
                 dim = rng.randint(1, 3)
                 niter = rng.randint(4, 8)
